@@ -42,6 +42,7 @@ class Translator:
         self.params = params or {}
         self.notes: list[str] = []
         self.used_params: list[str] = []
+        self._having = None  # while translating a HAVING clause: (keys, aggs, scope of the grouped relation)
 
     # ----------------------------------------------------------------- expressions
     def resolve(self, col, scope) -> int:
@@ -61,6 +62,23 @@ class Translator:
             return self.expr(e.this, scope)
         if isinstance(e, exp.Alias):
             return self.expr(e.this, scope)
+        if self._having is not None:
+            # HAVING is evaluated on the grouped rows (keys ++ aggregates): aggregates and keys become positions there
+            keys, aggs, gscope = self._having
+            if isinstance(e, (exp.Min, exp.Max, exp.Count)):
+                self._having = None
+                try:
+                    a = self.agg(e, gscope)
+                finally:
+                    self._having = (keys, aggs, gscope)
+                if a not in aggs:
+                    aggs.append(a)
+                return f"(Expr.col {len(keys) + aggs.index(a)})"
+            if isinstance(e, exp.Column):
+                t = f"(Expr.col {self.resolve(e, gscope)})"
+                if t not in keys:
+                    raise Untranslatable(f"HAVING refers to {e.sql()} which is not a group key")
+                return f"(Expr.col {keys.index(t)})"
         if isinstance(e, exp.Column):
             return f"(Expr.col {self.resolve(e, scope)})"
         cmp = {exp.EQ: "eq", exp.NEQ: "ne", exp.LT: "lt", exp.LTE: "le", exp.GT: "gt", exp.GTE: "ge"}
@@ -148,7 +166,7 @@ class Translator:
             return f"(Rel.union {allf} {a} {b})", ca
         if not isinstance(node, exp.Select):
             raise Untranslatable(f"query {type(node).__name__}")
-        for k in ("limit", "having", "qualify", "windows", "offset"):
+        for k in ("limit", "qualify", "windows", "offset"):
             if node.args.get(k):
                 raise Untranslatable(f"clause {k}")
         frm = node.args.get("from_") or node.args.get("from")
@@ -217,6 +235,8 @@ class Translator:
                 names.append(s.sql())
         group = node.args.get("group")
         has_agg = any(self.agg(s.this if isinstance(s, exp.Alias) else s, scope) is not None for s in sel if not isinstance(s, exp.Star))
+        if node.args.get("having") is not None and group is None:
+            raise Untranslatable("HAVING without GROUP BY")
         if group is not None or has_agg:
             keys = [self.expr(k, scope) for k in (group.expressions if group is not None else [])]
             aggs, order = [], []
@@ -233,7 +253,17 @@ class Translator:
                     if t not in keys:
                         raise Untranslatable(f"select item {body.sql()} is neither a group key nor an aggregate")
                     order.append(keys.index(t))
+            having = node.args.get("having")
+            hv = None
+            if having is not None:
+                self._having = (keys, aggs, scope)  # may append further aggregates (after those of the select list)
+                try:
+                    hv = self.expr(having.this, scope)
+                finally:
+                    self._having = None
             rel = f"(Rel.groupBy [{', '.join(keys)}] [{', '.join(aggs)}] {rel})"
+            if hv is not None:
+                rel = f"(Rel.filter {hv} {rel})"
             if order != list(range(len(keys) + len(aggs))):
                 rel = f"(Rel.project [{', '.join(f'(Expr.col {i})' for i in order)}] {rel})"
             out_cols = names
@@ -552,9 +582,134 @@ def write_cc() -> list[str]:
     return errors
 
 
+# --------------------------------------------------------------------------------------------------------------- multi-threshold spec
+MT_THRS = [0.4375, 0.5625, 0.6875, 0.8125]
+MT_STEP_NAMES = [
+    "__splink__relevant_edges",
+    "__splink__cluster_edge_probabilities",
+    "__splink__stable_clusters_at_new_threshold",
+    "__splink__stable_nodes_at_new_threshold",
+    "__splink__nodes_in_play",
+    "__splink__edges_in_play",
+    "__splink__clusters_at_threshold",
+]
+
+
+def capture_multi():
+    """Statements of one pass of the `for new_threshold in ...` loop of cluster_pairwise_predictions_at_multiple_thresholds,
+    with roles: cc (clustering entering the pass), edges_in / nodes_in (registered inputs), marginal (result of the marginal
+    clustering), literals TPREV / TNEW.  Also checks that the connected-components runs inside use the statements of capture_cc."""
+    import pandas as pd
+
+    from splink import DuckDBAPI
+    from splink.internals.clustering import cluster_pairwise_predictions_at_multiple_thresholds
+
+    errors = []
+    n = 6
+    nodes = pd.DataFrame({"nid": list(range(n))})
+    edges = pd.DataFrame({"el": [0, 1, 2, 4], "er": [1, 2, 3, 5], "match_probability": [0.9, 0.6, 0.5, 0.75]})
+    with Capture() as cap:
+        api = DuckDBAPI()
+        cluster_pairwise_predictions_at_multiple_thresholds(nodes, edges, api, "nid", list(MT_THRS), edge_id_column_name_left="el", edge_id_column_name_right="er").as_record_dict()
+    rec = cap.rec
+    pm = _phys_map(rec)
+    steps, cur = [], None
+    for e in rec:
+        names = [nm for nm, _ in e["ctes"]]
+        if names and names[0] == "__splink__relevant_edges":
+            cur = {"ctes": [], "marginal_seen": False}
+            steps.append(cur)
+        if cur is None:
+            continue
+        for nm, sql in e["ctes"]:
+            if nm in MT_STEP_NAMES:
+                cur["ctes"].append((nm, e, sql))
+    bodies = []
+    for k, st in enumerate(steps):
+        prev, new = repr(MT_THRS[k]), repr(MT_THRS[k + 1])
+        body = []
+        for nm, e, sql in st["ctes"]:
+            sql = _subst(sql, pm)
+            # roles of the inputs of this pipeline
+            roles = {}
+            for t, _ in e["inputs"]:
+                if t.startswith("__splink__df_edges_"):
+                    roles[t] = "edges_in"
+                elif t.startswith("__splink__df_nodes_"):
+                    roles[t] = "nodes_in"
+                elif t in ("__splink__clustering_output_final", "__splink__clusters_at_threshold") and nm != "__splink__clusters_at_threshold":
+                    roles[t] = "cc"
+                elif t == "__splink__clustering_output_final" and nm == "__splink__clusters_at_threshold":
+                    roles[t] = "marginal"
+            sql = _subst(sql, roles)
+            sql = re.sub(r"(?<![0-9.])" + re.escape(prev) + r"(?![0-9])", "111.25", sql)
+            sql = re.sub(r"(?<![0-9.])" + re.escape(new) + r"(?![0-9])", "222.25", sql)
+            body.append((nm, _norm(sql)))
+        bodies.append(body)
+    if len(bodies) < 3:
+        errors.append(f"capture run made {len(bodies)} threshold passes (need >= 3)")
+    for b in bodies[1:]:
+        if b != bodies[0]:
+            errors.append(f"statements of a threshold pass differ between passes: {b} != {bodies[0]}")
+            break
+    if bodies and [nm for nm, _ in bodies[0]] != MT_STEP_NAMES:
+        errors.append(f"a threshold pass issues {[nm for nm, _ in bodies[0]]}, expected {MT_STEP_NAMES}")
+    return {"body": bodies[0] if bodies else [], "errors": errors}
+
+
+def write_multi() -> list[str]:
+    """(Re)generate Generated/MultiSql.lean.  Returns error strings."""
+    cap = capture_multi()
+    errors = list(cap["errors"])
+    params = {"111.25": "tPrev", "222.25": "tNew", "1.0": "one"}
+    schemas = {
+        "edges_in": ["el", "er", "match_probability"],
+        "nodes_in": ["nid"],
+        "cc": ["nid", "cluster_id"],
+        "marginal": ["nid", "cluster_id"],
+    }
+    body = _translate_seq(cap["body"], schemas, params, errors, "multi/")
+    L = ["import SplinkVerif.Model.Rel"]
+    L.append("/-! GENERATED by harness/translate/tsql.py from the SQL that one pass of the threshold loop of")
+    L.append("`clustering.py:cluster_pairwise_predictions_at_multiple_thresholds` emits on the current tree.  Do not edit.")
+    L.append("")
+    L.append("Tables: `edges_in` (el, er, match_probability), `nodes_in` (nid), `cc` (nid, cluster_id) = the clustering at the")
+    L.append("previous threshold, `marginal` (nid, cluster_id) = result of the marginal clustering of the nodes in play.")
+    L.append("Parameters: `tPrev`, `tNew` = previous / new threshold, `one` = the literal 1.0. -/")
+    L.append("namespace SplinkVerif.Gen.MultiSql")
+    L.append("open SplinkVerif.Rel")
+    L.append("")
+    calls = []
+    for nm, term, cols, used, sql in body:
+        ident = _ident(nm)
+        L.append(f"/-- `{nm}`: `{sql}` ; columns {cols} -/")
+        if term is None:
+            L.append(f"-- UNTRANSLATABLE: {nm}")
+            continue
+        args = "".join(f" ({p} : Val)" for p in used)
+        L.append(f"def {ident}{args} : Rel :=\n  {term}")
+        L.append("")
+        calls.append((nm, ident + "".join(f" {p}" for p in used)))
+    if len(calls) == len(body) and len(calls) == len(MT_STEP_NAMES):
+        L.append("/-- the statements that decide which clusters stay (before the marginal clustering) -/")
+        L.append("def before (tPrev tNew one : Val) : List Stmt :=")
+        L.append("  [" + ", ".join(f"⟨{lean_str(nm)}, {c}⟩" for nm, c in calls[:6]) + "]")
+        L.append("")
+        L.append("/-- the statement after the marginal clustering -/")
+        L.append(f"def after : Stmt := ⟨{lean_str(calls[6][0])}, {calls[6][1]}⟩")
+        L.append("")
+    L.append("end SplinkVerif.Gen.MultiSql")
+    text = "\n".join(L) + "\n"
+    p = GEN / "MultiSql.lean"
+    if not p.exists() or p.read_text() != text:
+        p.write_text(text)
+    return errors
+
+
 if __name__ == "__main__":
     import sys
 
-    errs = write_cc()
+    which = sys.argv[1] if len(sys.argv) > 1 else "cc"
+    errs = {"cc": write_cc, "multi": write_multi}[which]()
     print("\n".join(errs) or "ok")
-    print((GEN / "CCSql.lean").read_text()[:6000])
+    print((GEN / {"cc": "CCSql.lean", "multi": "MultiSql.lean"}[which]).read_text()[:8000])
